@@ -282,6 +282,13 @@ impl PacketSender {
         (self.base_id, self.next_id, self.alloc, self.max_alloc, self.total_size, self.packet_send_queue.len(),
          self.window.iter().filter(|e| e.is_some()).count())
     }
+
+    /// (payload bytes in the send queue, payload bytes in the window, fragment-rounded bytes in the window)
+    pub fn verif_bytes(&self) -> (usize, usize, usize) {
+        (self.packet_send_queue.iter().map(|e| e.data.len()).sum(),
+         self.window.iter().flatten().map(|e| e.packet.borrow().size()).sum(),
+         self.window.iter().flatten().map(|e| e.alloc_size).sum())
+    }
 }
 
 #[cfg(test)]
